@@ -15,9 +15,11 @@ fn parse_file(p: &Path) -> syn::File {
     syn::parse_file(&src).unwrap_or_else(|e| fail(&format!("cannot parse {}: {e}", p.display())))
 }
 
+/// Fail closed — but only the group (one generated file) being produced: `main` runs every group on its own
+/// and reports which ones failed, so that a source change the translator cannot read breaks the tie of the
+/// properties that depend on that file and of no others.
 fn fail(msg: &str) -> ! {
-    eprintln!("extract: {msg}");
-    std::process::exit(3);
+    std::panic::panic_any(msg.to_string());
 }
 
 /// Collect `const` items (also inside inline modules and inherent impls), keyed by name
@@ -555,15 +557,31 @@ fn main() {
     let repo = PathBuf::from(&args[1]);
     let out = PathBuf::from(&args[2]);
     std::fs::create_dir_all(&out).unwrap();
-    gen_token(&repo, &out);
-    gen_disc(&repo, &out);
-    gen_tlv(&repo, &out);
-    gen_resolution(&repo, &out);
-    gen_err_consts(&repo, &out);
-    gen_error_enums(&repo, &out);
-    gen_token_fns(&repo, &out);
-    gen_seed_sizes(&repo, &out);
-    gen_seed_tags(&repo, &out);
+    std::panic::set_hook(Box::new(|_| {}));
+    let groups: Vec<(&str, &str, fn(&Path, &Path))> = vec![
+        ("token", "TokenConsts.lean", gen_token),
+        ("disc", "DiscConsts.lean", gen_disc),
+        ("tlv", "TlvConsts.lean", gen_tlv),
+        ("resolution", "ResolutionConsts.lean", gen_resolution),
+        ("err_consts", "ErrConsts.lean", gen_err_consts),
+        ("error_enums", "ErrorEnums.lean", gen_error_enums),
+        ("token_fns", "TokenFns.lean", gen_token_fns),
+        ("seed_sizes", "SeedConsts.lean", gen_seed_sizes),
+        ("seed_tags", "FormatConsts.lean", gen_seed_tags),
+    ];
+    let mut failed = false;
+    for (name, file, g) in groups {
+        let (r2, o2) = (repo.clone(), out.clone());
+        match std::panic::catch_unwind(move || g(&r2, &o2)) {
+            Ok(()) => println!("group {name} {file} ok"),
+            Err(e) => {
+                failed = true;
+                let msg = e.downcast_ref::<String>().cloned().or_else(|| e.downcast_ref::<&str>().map(|s| s.to_string())).unwrap_or_else(|| "panic".into());
+                println!("group {name} {file} FAILED: {}", msg.replace('\n', " "));
+            }
+        }
+    }
+    std::process::exit(if failed { 3 } else { 0 });
 }
 // ---------------------------------------------------------------------------------------------
 // Boolean predicates of generic-token, translated expression by expression into the small Lean
@@ -691,6 +709,16 @@ fn tr_bool(e: &syn::Expr, cx: &FnCtx) -> String {
             format!("({f} {} {})", tr_num(&b.left, cx), tr_num(&b.right, cx))
         }
         syn::Expr::Unary(u) if matches!(u.op, syn::UnOp::Not(_)) => format!("(RX.not {})", tr_bool(&u.expr, cx)),
+        syn::Expr::Lit(l) => match &l.lit {
+            syn::Lit::Bool(b) => format!("(Res.ok {})", b.value),
+            _ => fail("unsupported literal in a boolean position"),
+        },
+        syn::Expr::If(i) => {
+            let Some((_, els)) = &i.else_branch else { fail("`if` without `else` in a boolean position") };
+            format!("(RX.ifB {} (fun _ => {}) (fun _ => {}))", tr_bool(&i.cond, cx), tr_block(&i.then_branch, cx), tr_else(els, cx))
+        }
+        syn::Expr::Block(b) => tr_block(&b.block, cx),
+        syn::Expr::Return(r) => tr_bool(r.expr.as_ref().unwrap_or_else(|| fail("bare return")), cx),
         syn::Expr::Call(c) => {
             let syn::Expr::Path(p) = &*c.func else { fail("unsupported call") };
             let key = path_str(&p.path);
@@ -708,6 +736,48 @@ fn tr_bool(e: &syn::Expr, cx: &FnCtx) -> String {
         }
         _ => fail(&format!("unsupported boolean expression form in {}", cx.module)),
     }
+}
+
+fn tr_else(e: &syn::Expr, cx: &FnCtx) -> String {
+    match e {
+        syn::Expr::Block(b) => tr_block(&b.block, cx),
+        other => tr_bool(other, cx),
+    }
+}
+
+/// does the block always leave the function (`return …;` as its last statement)?
+fn returns(block: &syn::Block) -> Option<&syn::Expr> {
+    match block.stmts.last()? {
+        syn::Stmt::Expr(syn::Expr::Return(r), _) if block.stmts.len() == 1 => r.expr.as_deref(),
+        _ => None,
+    }
+}
+
+/// a block of a boolean function: `let x = <numeric>;`, `if c { return e; }` (early return), then a tail expression
+fn tr_block(block: &syn::Block, cx: &FnCtx) -> String {
+    fn go(stmts: &[syn::Stmt], cx: &FnCtx) -> String {
+        let Some((first, rest)) = stmts.split_first() else { fail("block without a value") };
+        match first {
+            syn::Stmt::Expr(e, None) if rest.is_empty() => tr_bool(e, cx),
+            syn::Stmt::Expr(syn::Expr::Return(r), Some(_)) if rest.is_empty() => tr_bool(r.expr.as_ref().unwrap_or_else(|| fail("bare return")), cx),
+            syn::Stmt::Expr(syn::Expr::If(i), _) if i.else_branch.is_none() => {
+                let ret = returns(&i.then_branch).unwrap_or_else(|| fail("`if` statement that is not an early return"));
+                format!("(RX.ifB {} (fun _ => {}) (fun _ => {}))", tr_bool(&i.cond, cx), tr_bool(ret, cx), go(rest, cx))
+            }
+            syn::Stmt::Local(l) => {
+                let syn::Pat::Ident(id) = &l.pat else { fail("unsupported `let` pattern") };
+                let init = l.init.as_ref().unwrap_or_else(|| fail("`let` without a value"));
+                let name = id.ident.to_string();
+                let mut nats = cx.nats.clone();
+                let val = tr_num(&init.expr, cx);
+                nats.push(name.clone());
+                let cx2 = FnCtx { module: cx.module, slices: cx.slices.clone(), nats, keys: cx.keys.clone(), consts: cx.consts, fns: cx.fns };
+                format!("(RX.bindN {val} (fun {name} => {}))", go(rest, &cx2))
+            }
+            _ => fail(&format!("unsupported statement form in {}", cx.module)),
+        }
+    }
+    go(&block.stmts, cx)
 }
 
 fn single_expr(block: &syn::Block, what: &str) -> syn::Expr {
@@ -801,7 +871,7 @@ fn gen_token_fns(repo: &Path, out: &Path) {
         };
         let (slices, nats, keys, binder) = params(&sig, &what);
         let cx = FnCtx { module: m, slices, nats, keys, consts: &consts, fns: &fns };
-        let body = tr_bool(&single_expr(&block, &what), &cx);
+        let body = tr_block(&block, &cx);
         writeln!(s, "/-- `{what}` -/\ndef {}{binder} : Res Bool :=\n  {body}\n", fns[&what]).unwrap();
     }
     writeln!(s, "end Gen.TokenFns").unwrap();
